@@ -79,6 +79,7 @@ func (e *Engine) axioms() []axiom {
 		{"(boxreal ", `(assert (forall ((x Real)) (! (= (unboxreal (boxreal x)) x) :pattern ((boxreal x)))))`},
 		{"(strlen ", `(assert (forall ((s Int)) (! (>= (strlen s) 0) :pattern ((strlen s)))))`},
 		{"(strlen ", `(assert (= (strlen 0) 0))`},
+		{"(strlen ", `(assert (forall ((s Int)) (! (=> (= (strlen s) 0) (= s 0)) :pattern ((strlen s)))))`},
 		{"(bytesof ", `(assert (forall ((a (Array Int Int)) (o Int) (n Int)) (! (=> (>= n 0) (= (strlen (bytesof a o n)) n)) :pattern ((bytesof a o n)))))`},
 		{"(xxh ", `(assert (forall ((s Int)) (! (and (<= 0 (xxh s)) (<= (xxh s) 18446744073709551615)) :pattern ((xxh s)))))`},
 		{"(fmtuint ", `(assert (forall ((x Int) (b Int)) (! (= (fmtuint_inv (fmtuint x b)) x) :pattern ((fmtuint x b)))))`},
@@ -581,6 +582,27 @@ func firstError(out string) string {
 
 // retryOne races the three solvers on one obligation.
 func (e *Engine) retryOne(lines []Line, ob *Obligation, slowMs int, scratch string, mu *sync.Mutex) {
+	if ob.Goal == "false" && ob.Expect != "sat" {
+		// a discipline rule violated syntactically on this path: it stands unless the path is infeasible, which the
+		// per-path run has just failed to show; only the quantifier-free feasibility check is repeated (for the model)
+		qf := e.standalone(lines, ob, true, true)
+		status, solver, model := "failed", "path not refuted", ""
+		t0 := time.Now()
+		out, _ := runSolver(solvers[0], qf, 5000, 8*time.Second)
+		switch answerOf(out, ob) {
+		case "unsat":
+			status, solver = "discharged", solvers[0].name
+		case "sat":
+			solver, model = solvers[0].name+" (quantifier-free context)", out
+		}
+		mu.Lock()
+		ob.Status, ob.Solver, ob.Secs, ob.Model = status, solver, time.Since(t0).Seconds(), model
+		if status != "discharged" {
+			ob.Values = e.withConsts(ob.Fn, parseGetValue(out))
+		}
+		mu.Unlock()
+		return
+	}
 	script := e.standalone(lines, ob, true, ob.Expect == "sat")
 	type result struct {
 		solver string
